@@ -12,7 +12,8 @@ RULE = ("one generated shot (shared generator incl. winds, cant, look angles) an
         "extra) constructed to share recording distances: steps a*u and b*u for small integers a,b (u from 0.05 ft, i.e. "
         "also below the integration step, to 100 ft), ranges multiples of the common step plus an optional excess, "
         "time_step in {0, t1, t2}, extra in {F,T}, default-step requests; non-trivial = >= 3 common distances and the "
-        "requests differ in >= 2 of (range, step, time_step, extra); distinct = distinct case dicts")
+        "requests differ in >= 2 of (range, step, time_step, extra); distinct = distinct case dicts; in 4 of 7 cases the calculator under test has a past (build.calculator prior: extra-data fire / "
+        "subsonic fire / zeroing / RangeError for another fixed shot)")
 ASSUMPTIONS = ["rows are matched on the requested multiples (k1*s1 == k2*s2 within 1e-9 relative)",
                "columns compared on raw values with 1e-9 relative + 1e-12 absolute tolerance (covers the accumulated "
                "rounding of the record distance, which moves the interpolation point by ulps)"]
